@@ -371,6 +371,8 @@ def do_check(pid, tier, seed):
     notes = []
     incomplete = False
     for job in chk['jobs']:
+        if os.environ.get('VERIF_ONLY_JOB') and job['name'] not in os.environ['VERIF_ONLY_JOB'].split(','):      # development aid
+            continue
         if job.get('tiers') and tier not in job['tiers']:
             continue
         r = run_job(pid, job, tier, deadline)
@@ -392,7 +394,7 @@ def do_check(pid, tier, seed):
               ' '.join('%s=%d' % kv for kv in sorted(r.stats.items())[:8]), '  (INCOMPLETE: budget)' if r.incomplete else ''), flush=True)
     # vacuity guards
     for g in chk.get('nonzero', []):
-        if total_stats.get(g, 0) == 0 and maxes.get(g, 0) == 0 and not errors and not violations and not incomplete:
+        if total_stats.get(g, 0) == 0 and maxes.get(g, 0) == 0 and not errors and not violations and not incomplete and not os.environ.get('VERIF_ONLY_JOB'):
             errors.append('vacuity guard: counter %r is zero' % g)
     # violations -> replay files; known findings
     real, knownhits = [], []
